@@ -1,7 +1,7 @@
 #!/usr/bin/env python3
 """Development aid: replay every seeded change (round 1 in /verif/seeded, later rounds wherever they are) in memory
 against its own property's rules, 16 at a time, and print one line per seed.
-usage: python3-vt tools/eval_all.py [--only C03,C05] [--kind B|N] [-v]"""
+usage: python3-vt tools/eval_all.py [--only C03,C05] [--kind B|N] [-v] [--cross [--at C06,C08]]"""
 import glob, os, sys, re, json, time
 from concurrent.futures import ProcessPoolExecutor
 from pathlib import Path
@@ -57,7 +57,11 @@ if __name__ == "__main__":
     if "--cross" in sys.argv:
         # every neutral change against every property (a change must not alarm any check)
         allp = [f"C{i:02d}" for i in range(1, 21)]
-        js = [(p, k, f"{lab} @{p}", path) for (own, k, lab, path) in jobs() if k == "N" for p in allp if p != own]
+        at = None
+        for i, a in enumerate(sys.argv):
+            if a == "--at":
+                at = set(sys.argv[i + 1].split(","))
+        js = [(p, k, f"{lab} @{p}", path) for (own, k, lab, path) in jobs() if k == "N" for p in allp if p != own and (at is None or p in at)]
     with ProcessPoolExecutor(16) as ex:
         res = list(ex.map(run, js))
     tally = {}
